@@ -88,7 +88,7 @@ def cat(tier):
     if tier not in _CAT:
         c = catalog.all_load_models(tier)
         if tier == 'quick':
-            c = c[::3]
+            c = c[::3] + [m for i, m in enumerate(c) if i % 3 and m[0] in ('season', 'shorthand', 'element-order')]
         _CAT[tier] = c + more_models()
     return _CAT[tier]
 
@@ -347,6 +347,20 @@ def eqv_u(a, b, unordered_extra):
     if isinstance(a, enum.Enum) or isinstance(b, enum.Enum):
         return isinstance(a, enum.Enum) and isinstance(b, enum.Enum) and ta.__name__ == tb.__name__ and a.name == b.name
     if isinstance(a, dict) and isinstance(b, dict):
+        if unordered_extra:
+            # under key permutation a permuted mapping may have been loaded as a plain dict (a Union member, Any):
+            # its order follows the document, which is C02's business, so dicts are compared as unordered here
+            if len(a) != len(b):
+                return False
+            rest = list(b.items())
+            for ka_, va_ in a.items():
+                for i, (kb_, vb_) in enumerate(rest):
+                    if eqv_u(ka_, kb_, True) and eqv_u(va_, vb_, True):
+                        del rest[i]
+                        break
+                else:
+                    return False
+            return True
         return len(a) == len(b) and all(eqv_u(x, y, unordered_extra) and eqv_u(a[x], b[y], unordered_extra)
                                         for x, y in zip(a.keys(), b.keys()))
     if ta.__module__ != 'builtins' and tb.__module__ != 'builtins' and ta is not tb:
